@@ -113,3 +113,92 @@ def outside_names(rng, apex):
     if apex:
         out += [apex[1:], apex[:-1] + ["64"], ["61"] + apex[:-1] + ["64"], apex[:-1], ["61", "62"] + apex[1:]]
     return out
+
+
+# ---------------------------------------------------------------- validation zones (C21)
+
+def ch_a_rdata(rng):
+    # class CH type A: <domain name><16-bit address>; lower-case names only (req_simple is octet equality here)
+    return wire(["63", "68"]) + rng.choice(["0001", "0002"])
+
+
+def addr_records(rng, cls, owner, p_a=0.6, p_aaaa=0.3):
+    out = []
+    if rng.random() < p_a:
+        out.append((owner, T_A, ch_a_rdata(rng) if cls == 3 else rng.choice(A_POOL)))
+    if rng.random() < p_aaaa:
+        out.append((owner, T_AAAA, rng.choice(AAAA_POOL)))
+    return out
+
+
+def gen_vzone(rng):
+    """(apex, cls, wide, [record strings]): delegations (nested and sibling), name servers in the
+    authoritative part / inside the delegation / inside a sibling / outside the zone, glue present or
+    absent, apex SOA 0..2, apex NS, MX, CNAME alone / with other data / duplicated, NS at wildcards,
+    occasionally RDATA that is not a name."""
+    apex = rng.choice(APEXES)
+    cls = rng.choice([1, 1, 1, 3, 7])
+    wide = rng.choice([0, 1])
+    L = ["61", "62", "63"]
+    dels = []
+    for _ in range(rng.choice([0, 1, 1, 2, 3])):
+        d = [rng.choice(L) for _ in range(rng.choice([1, 1, 2]))]
+        dels.append(d)
+    if dels and rng.random() < 0.3:
+        dels.append([rng.choice(L)] + dels[0])          # a delegation below a delegation (occluded)
+    hosts = [["6e73"], ["6d78"], ["61"], ["6e73", "62"]]   # ns, mx, a, ns.b  (authoritative unless under a cut)
+
+    def target():
+        r = rng.random()
+        if dels and r < 0.35:
+            return rng.choice([["6e73"], ["61"], ["6e73", "61"]]) + rng.choice(dels) + apex     # inside a delegation
+        if r < 0.75:
+            return rng.choice(hosts) + apex
+        if r < 0.85:
+            return [rng.choice(L)] + ["2a"] + apex if rng.random() < 0.3 else ["7a"] + apex      # wildcard-covered / absent
+        return ["6e73", "78"]                                                                    # outside
+    recs = []
+
+    def add(owner, ty, rd, ttl=3600):
+        recs.append((owner, ty, rd))
+    for _ in range(rng.choice([0, 1, 1, 1, 2])):
+        add(apex, T_SOA, soa_rdata(rng, apex))
+    for _ in range(rng.choice([0, 1, 2, 2])):
+        add(apex, T_NS, wire(flip_case(rng, target(), 0.2)))
+    for d in dels:
+        for _ in range(rng.choice([1, 1, 2])):
+            add(d + apex, T_NS, wire(flip_case(rng, target(), 0.2)))
+    for _ in range(rng.choice([0, 1, 2])):
+        add(rng.choice([[], ["61"], ["62", "61"]]) + apex, T_MX, "000a" + wire(target()))
+    # addresses: for hosts, for names inside delegations (glue), sometimes for nothing
+    for h in hosts:
+        recs += addr_records(rng, cls, h + apex)
+    for d in dels:
+        for pre in (["6e73"], ["61"], ["6e73", "61"]):
+            recs += addr_records(rng, cls, pre + d + apex, 0.4, 0.2)
+    if rng.random() < 0.4:
+        recs += addr_records(rng, cls, ["2a"] + apex, 0.7, 0.2)
+    # CNAMEs
+    for _ in range(rng.choice([0, 0, 1, 2])):
+        o = rng.choice([["63", "61"], ["77"], ["61"], ["2a", "62"]]) + apex
+        add(o, T_CNAME, wire(target()))
+        if rng.random() < 0.4:
+            add(o, T_CNAME, wire(target()))
+        if rng.random() < 0.4:
+            add(o, rng.choice([T_TXT, T_A if cls != 3 else T_TXT]), rng.choice(TXT_POOL) if True else "")
+    # NS at a wildcard
+    if rng.random() < 0.3:
+        add(rng.choice([["2a"], ["2a", "62"], ["2a"] + (dels[0] if dels else ["63"])]) + apex, T_NS, wire(target()))
+    # RDATA that is not a domain name
+    if rng.random() < 0.08:
+        bad = rng.choice(["", "05", "0161", "4061" + "61" * 63 + "00", "016100ff", "c00c"])
+        ty = rng.choice([T_NS, T_NS, T_MX])
+        o = rng.choice([apex] + [d + apex for d in dels])
+        add(o, ty, ("000a" + bad) if ty == T_MX and rng.random() < 0.7 else (bad or "-"))
+    rng.shuffle(recs)
+    out = []
+    for (o, ty, rd) in recs[:45]:
+        if ty == T_A and cls == 3 and len(rd) == 8:
+            rd = ch_a_rdata(rng)
+        out.append(f"{nm(flip_case(rng, o, 0.15))},{ty},{cls},3600,{rd if rd else '-'}")
+    return apex, cls, wide, out
